@@ -775,5 +775,6 @@ func runC09(c *gen.Ctx) error {
 			}
 		}
 	}
+	c09PeerGen(c)
 	return nil
 }
